@@ -141,6 +141,14 @@ pub enum PTy {
     CallbackFactory,
     /// `cb_fn_t *cb` with `typedef int cb_fn_t(int, double);` (pointer to a typedef'd function type)
     CallbackTypedef,
+    /// `T name[a][b]` parameter (decays to `T (*)[b]`)
+    Array2D(Sc, u8, u8),
+    /// `T (*name)[n]`: pointer to an array
+    PtrToArray(Sc, u8),
+    /// `int (*name[n])(int, double)`: array of callbacks (decays to a pointer to function pointers)
+    CallbackArray(u8),
+    /// `int (*const name)(int, double)`: const-qualified callback
+    ConstCallback,
 }
 
 #[derive(Clone, Debug, Serialize, Deserialize, PartialEq, Eq)]
@@ -254,7 +262,11 @@ impl Lib {
             for p in f.params.iter_mut() {
                 match p {
                     PTy::PtrStruct(k, _) | PTy::Struct(k) => fix(k),
-                    PTy::ArrayParam(_, n) => *n = (*n % 5) + 1,
+                    PTy::ArrayParam(_, n) | PTy::PtrToArray(_, n) | PTy::CallbackArray(n) => *n = (*n % 5) + 1,
+                    PTy::Array2D(_, a, b) => {
+                        *a = (*a % 3) + 1;
+                        *b = (*b % 4) + 1;
+                    }
                     _ => {}
                 }
             }
@@ -341,6 +353,10 @@ impl Lib {
             PTy::Callback => format!("int (*{n})(int, double)"),
             PTy::CallbackFactory => format!("int (*(*{n})(int))(int, double)"),
             PTy::CallbackTypedef => format!("cb_fn_t *{n}"),
+            PTy::Array2D(s, a, b) => format!("{} {n}[{a}][{b}]", s.c()),
+            PTy::PtrToArray(s, len) => format!("{} (*{n})[{len}]", s.c()),
+            PTy::CallbackArray(k) => format!("int (*{n}[{k}])(int, double)"),
+            PTy::ConstCallback => format!("int (*const {n})(int, double)"),
         }
     }
     fn c_ret(&self, r: &RTy) -> String {
@@ -414,7 +430,24 @@ impl Lib {
                     }
                     PTy::Callback => s.push_str(&format!("  h = step(h, {n} ? (unsigned long long)(long long){n}((int)(h & 0xffff), 2.5) : 99ULL);\n")),
                     PTy::CallbackFactory => s.push_str(&format!("  h = step(h, (unsigned long long)(long long){n}(7)((int)(h & 0xffff), 2.5));\n")),
-                    PTy::CallbackTypedef => s.push_str(&format!("  h = step(h, {n} ? (unsigned long long)(long long){n}((int)(h & 0xffff), 2.5) : 99ULL);\n")),
+                    PTy::CallbackTypedef | PTy::ConstCallback => s.push_str(&format!("  h = step(h, {n} ? (unsigned long long)(long long){n}((int)(h & 0xffff), 2.5) : 99ULL);\n")),
+                    PTy::Array2D(sc, a, b) => {
+                        for i in 0..*a {
+                            for j in 0..*b {
+                                s.push_str(&format!("  h = step(h, {});\n", sc.c_canon(&format!("{n}[{i}][{j}]"))));
+                            }
+                        }
+                    }
+                    PTy::PtrToArray(sc, len) => {
+                        for j in 0..*len {
+                            s.push_str(&format!("  h = step(h, {});\n", sc.c_canon(&format!("(*{n})[{j}]"))));
+                        }
+                    }
+                    PTy::CallbackArray(k) => {
+                        for j in 0..*k {
+                            s.push_str(&format!("  h = step(h, (unsigned long long)(long long){n}[{j}]((int)(h & 0xffff), 2.5));\n"));
+                        }
+                    }
                 }
             }
             if let Some(nv) = f.variadic {
@@ -529,6 +562,10 @@ pub fn lib_strategy() -> BoxedStrategy<Lib> {
         1 => Just(PTy::Callback),
         1 => Just(PTy::CallbackFactory),
         1 => Just(PTy::CallbackTypedef),
+        1 => (sc.clone(), 0u8..3, 0u8..4).prop_map(|(s, a, b)| PTy::Array2D(s, a, b)),
+        1 => (sc.clone(), 0u8..5).prop_map(|(s, n)| PTy::PtrToArray(s, n)),
+        1 => (0u8..5).prop_map(PTy::CallbackArray),
+        1 => Just(PTy::ConstCallback),
     ];
     let rty = prop_oneof![2 => Just(RTy::Void), 6 => sc.clone().prop_map(RTy::Sc), 4 => any::<u16>().prop_map(RTy::Struct), 1 => Just(RTy::Enum), 1 => Just(RTy::Ptr), 1 => Just(RTy::FnPtr)];
     let func = (proptest::collection::vec(pty, 0..9), rty, proptest::option::weighted(0.12, 0u8..7), proptest::bool::weighted(0.03), proptest::option::weighted(0.12, any::<u8>()), proptest::bool::weighted(0.15), proptest::bool::weighted(0.15))
@@ -591,7 +628,7 @@ impl C04 {
     /// the caller restricted to the functions `only`
     pub fn caller_subset(&self, lib: &Lib, inv: &Inventory, seed: u64, cb_abi: &str, only: &[usize], problems: &mut Vec<(String, String)>) -> String {
         let mut s = format!("#![allow(warnings)]\ninclude!(\"b.rs\");\nfn step(h: u64, v: u64) -> u64 {{ (h ^ v).wrapping_mul(1099511628211) }}\nextern \"{cb_abi}\" fn the_cb(a: ::std::os::raw::c_int, b: f64) -> ::std::os::raw::c_int {{ a.wrapping_mul(3).wrapping_add(b as ::std::os::raw::c_int) }}\n");
-        s.push_str(&format!("unsafe extern \"{cb_abi}\" fn the_cb_u(a: ::std::os::raw::c_int, b: f64) -> ::std::os::raw::c_int {{ the_cb(a, b) }}\nextern \"{cb_abi}\" fn the_factory(k: ::std::os::raw::c_int) -> Option<unsafe extern \"{cb_abi}\" fn(::std::os::raw::c_int, f64) -> ::std::os::raw::c_int> {{ if k == 7 {{ Some(the_cb_u) }} else {{ None }} }}\n"));
+        s.push_str(&format!("unsafe extern \"{cb_abi}\" fn the_cb_u(a: ::std::os::raw::c_int, b: f64) -> ::std::os::raw::c_int {{ the_cb(a, b) }}\ntype CbT = unsafe extern \"{cb_abi}\" fn(::std::os::raw::c_int, f64) -> ::std::os::raw::c_int;\nextern \"{cb_abi}\" fn the_factory(k: ::std::os::raw::c_int) -> Option<unsafe extern \"{cb_abi}\" fn(::std::os::raw::c_int, f64) -> ::std::os::raw::c_int> {{ if k == 7 {{ Some(the_cb_u) }} else {{ None }} }}\n"));
         let _unused = String::from("extern \"C\" fn the_cb_unused(a: ::std::os::raw::c_int, b: f64) -> ::std::os::raw::c_int { a.wrapping_mul(3).wrapping_add(b as ::std::os::raw::c_int) }\n");
         s.push_str("fn main() {\n  let mut bad = 0usize;\n");
         let enum_ty = if inv.items.iter().any(|i| i.name == "enum_Color") { "enum_Color" } else { "Color" };
@@ -747,7 +784,32 @@ impl C04 {
                             s.push_str("    h = step(h, (the_cb((h & 0xffff) as ::std::os::raw::c_int, 2.5) as i64) as u64);\n");
                             args.push("Some(the_factory)".into());
                         }
-                        PTy::Callback | PTy::CallbackTypedef => {
+                        PTy::Array2D(sc, d0, d1) => {
+                            s.push_str(&format!("    let mut {a}: [[{}; {d1}]; {d0}] = unsafe {{ ::std::mem::zeroed() }};\n", sc.rust()));
+                            for i in 0..*d0 {
+                                for j in 0..*d1 {
+                                    let w = word(&mut st);
+                                    s.push_str(&format!("    {a}[{i}][{j}] = {}; h = step(h, {});\n", sc.rust_from(&format!("{w}u64")), sc.rust_canon(&format!("{a}[{i}][{j}]"))));
+                                }
+                            }
+                            args.push(format!("{a}.as_mut_ptr()"));
+                        }
+                        PTy::PtrToArray(sc, len) => {
+                            s.push_str(&format!("    let mut {a}: [{}; {len}] = unsafe {{ ::std::mem::zeroed() }};\n", sc.rust()));
+                            for j in 0..*len {
+                                let w = word(&mut st);
+                                s.push_str(&format!("    {a}[{j}] = {}; h = step(h, {});\n", sc.rust_from(&format!("{w}u64")), sc.rust_canon(&format!("{a}[{j}]"))));
+                            }
+                            args.push(format!("&mut {a}"));
+                        }
+                        PTy::CallbackArray(k) => {
+                            s.push_str(&format!("    let mut {a}: [Option<CbT>; {k}] = [Some(the_cb_u as CbT); {k}];\n"));
+                            for _ in 0..*k {
+                                s.push_str("    h = step(h, (the_cb((h & 0xffff) as ::std::os::raw::c_int, 2.5) as i64) as u64);\n");
+                            }
+                            args.push(format!("{a}.as_mut_ptr()"));
+                        }
+                        PTy::Callback | PTy::CallbackTypedef | PTy::ConstCallback => {
                             let pass_none = word(&mut st) % 4 == 0;
                             if pass_none {
                                 s.push_str("    h = step(h, 99u64);\n");
@@ -972,8 +1034,11 @@ impl Property for C04 {
             if f.awkward_name.is_some() {
                 out.class("fn:keyword-name");
             }
-            if f.params.iter().any(|p| matches!(p, PTy::Callback | PTy::CallbackFactory | PTy::CallbackTypedef)) {
+            if f.params.iter().any(|p| matches!(p, PTy::Callback | PTy::CallbackFactory | PTy::CallbackTypedef | PTy::CallbackArray(_) | PTy::ConstCallback)) {
                 out.class("fn:callback");
+            }
+            if f.params.iter().any(|p| matches!(p, PTy::Array2D(..) | PTy::PtrToArray(..) | PTy::CallbackArray(_))) {
+                out.class("fn:array-shaped-parameter");
             }
             if agg || f.params.len() > 6 {
                 out.nontrivial(format!("{:x}", fnv(&format!("{}{:?}", lib.proto(k), case.flags))));
